@@ -327,7 +327,7 @@ Proof.
   - destruct Pre as ((j1 & C1 & R1) & Hi & Hn & Fu). split; [|intros; exact I].
     cbn [exec post_body]. exists j1. split; [assumption|]. repeat split; auto.
   - cbn [acts_nz forallb] in V. apply andb_prop in V as [Va V].
-    destruct a as [c|bs| | |v|k| |]; unfold body_goal; cbn [exec nopanic count_next].
+    destruct a as [c|bs| | |v|k| | |]; unfold body_goal; cbn [exec nopanic count_next].
     + (* WriteHeader *)
       assert (Hc : c <> 0%Z) by (intros ->; discriminate).
       apply (simple_step (w_header c)); auto.
@@ -403,6 +403,11 @@ Proof.
     + (* the http.ResponseWriter is re-mapped *)
       apply (simple_step set_wrapped); auto.
       intros sg fr j Cj. exists j. split; [exact Cj | apply same_ctl_refl].
+    + (* Flush *)
+      apply (simple_step (w_header 200)); auto.
+      * apply w_header_idx.
+      * apply stopb_frame; [apply w_header_idx | rewrite w_header_canc; auto | apply w_header_written].
+      * intros sg fr j Cj. apply cov_w_header; [discriminate | assumption].
 Qed.
 End Body.
 
